@@ -14,6 +14,22 @@ tokens through which a peer id can come into being from key material:
     kind 7   `PeerId::from(` / `PeerId::try_from(`   call
     kind 8   `.into()` inside a function named `to_peer_id` (src/crypto/** only)
 
+Parse sites (second table, `parse_sites`): the places where a PeerId is made from received bytes,
+text or a multiaddress component, i.e. calls of the gates modelled by of_bytes / admits /
+of_component / of_text:
+
+    kind 9    `PeerId::from_bytes(`
+    kind 10   `PeerId::from_multihash(`  /  `Self::from_multihash(`
+    kind 11   `PeerId::try_from_multiaddr(`
+    kind 12   `PeerId::from_str(`  /  `parse::<PeerId>(`  /  `Self::from_bytes(`-free text entry
+    kind 13   `Multihash::from_bytes(`   (src/peer_id.rs only: the multihash layer under from_bytes)
+    kind 14   `bs58::decode(` / `bs58::encode(`   (src/peer_id.rs only)
+
+Key admission (third table): the match arms of `impl TryFrom<keys_proto::PublicKey> for
+RemotePublicKey` / `for PublicKey` in src/crypto/mod.rs as (KeyType number, behind
+`#[cfg(feature = "rsa")]`), with the numbers of src/schema/keys.proto; `key_type_numbers` lists
+every entry of the enum.
+
 Definitions (`fn name(`) are not sites. Each site is reported as (file, function, kind) where
 file and function are indices into the tables below (an unknown file or function gets index 99,
 which no entry of the model's table has). The list is written to coq/gen/PeerIdSites.v;
@@ -41,6 +57,17 @@ FILES = [
     "src/lib.rs",                           # 6
     "src/transport/manager/mod.rs",         # 7
     "src/crypto/rsa.rs",                    # 8
+    "src/protocol/libp2p/kademlia/types.rs",    # 9
+    "src/protocol/libp2p/kademlia/message.rs",  # 10
+    "src/transport/common/listener.rs",         # 11
+    "src/transport/websocket/mod.rs",           # 12
+    "src/transport/quic/listener.rs",           # 13
+    "src/addresses.rs",                         # 14
+    "src/transport/webrtc/mod.rs",              # 15
+    "src/transport/quic/mod.rs",                # 16
+    "src/transport/tcp/mod.rs",                 # 17
+    "src/transport/manager/handle.rs",          # 18
+    "src/transport/manager/address.rs",         # 19
 ]
 FUNCS = [
     "from_public_key",            # 0
@@ -61,6 +88,23 @@ FUNCS = [
     "visit_str",                  # 15
     "from_str",                   # 16
     "build",                      # 17
+    "record_from_schema",         # 18
+    "get_socket_address",         # 19
+    "dial_address",               # 20
+    "to_base58",                  # 21
+    "update_address_on_dial_failure",  # 22
+    "next",                       # 23
+    "multiaddr_to_socket_address",  # 24
+    "multiaddr_into_url",         # 25
+    "ensure_local_peer",          # 26
+]
+PARSE_KINDS = [
+    (9, r"\bPeerId::from_bytes\s*\(", None),
+    (10, r"\b(?:PeerId|Self)::from_multihash\s*\(", None),
+    (11, r"\b(?:PeerId|Self)::try_from_multiaddr\s*\(", None),
+    (12, r"\bPeerId::from_str\s*\(|parse::<\s*PeerId\s*>\s*\(", None),
+    (13, r"\bMultihash::from_bytes\s*\(", ("src/peer_id.rs",)),
+    (14, r"\bbs58::(?:decode|encode)\s*\(", ("src/peer_id.rs",)),
 ]
 KINDS = [
     (1, r"\bPeerId\s*\{\s*multihash\b", None),
@@ -147,7 +191,8 @@ def enclosing_fn(s, pos):
     return last
 
 
-def scan(repo):
+def scan(repo, kinds=None):
+    kinds = KINDS if kinds is None else kinds
     sites = []
     names = []
     root = os.path.join(repo, "src")
@@ -161,10 +206,10 @@ def scan(repo):
         if "tests" in parts or parts[-1] in ("tests.rs", "mock.rs") or "s2n-quic" in parts:
             continue
         # verification hook files (cfg(feature = "verif"), add-only) are not part of the crate proper
-        if parts[-1].startswith("verif"):
+        if parts[-1] == "verif.rs" or parts[-1].startswith("verif_"):
             continue
         s = strip_tests(blank(open(os.path.join(repo, rel)).read()))
-        for kind, rx, only in KINDS:
+        for kind, rx, only in kinds:
             if only and not any(rel == o or rel.startswith(o) for o in only):
                 continue
             for m in re.finditer(rx, s):
@@ -185,31 +230,124 @@ def scan(repo):
     return [sites[i][:3] for i in order], [names[i] for i in order]
 
 
+def key_admission(repo):
+    """(enum numbers in file order, remote table, local table) or None when a pattern is gone."""
+    try:
+        proto = open(os.path.join(repo, "src/schema/keys.proto")).read()
+        src = strip_tests(blank(open(os.path.join(repo, "src/crypto/mod.rs")).read()))
+    except OSError:
+        return None
+    m = re.search(r"enum\s+KeyType\s*\{([^}]*)\}", proto)
+    if not m:
+        return None
+    entries = re.findall(r"(\w+)\s*=\s*(\d+)\s*;", m.group(1))
+    if not entries:
+        return None
+    number = {name.lower(): int(v) for name, v in entries}
+
+    def impl_body(target):
+        mm = re.search(r"impl\s+TryFrom<\s*keys_proto::PublicKey\s*>\s+for\s+" + target + r"\s*\{", src)
+        if not mm:
+            return None
+        return src[mm.end() - 1:match_brace(src, mm.end() - 1)]
+
+    remote = impl_body("RemotePublicKey")
+    local = impl_body("PublicKey")
+    if remote is None or local is None:
+        return None
+    # the cfg attribute's string literal was blanked together with every other literal: look at the raw text
+    raw = open(os.path.join(repo, "src/crypto/mod.rs")).read()
+    rt = []
+    mm0 = re.search(r"impl\s+TryFrom<\s*keys_proto::PublicKey\s*>\s+for\s+RemotePublicKey\s*\{", raw)
+    if not mm0:
+        return None
+    rbody = raw[mm0.end() - 1:match_brace(raw, mm0.end() - 1)]
+    for mm in re.finditer(r"(#\[cfg\(feature\s*=\s*\"rsa\"\)\]\s*)?keys_proto::KeyType::(\w+)\s*=>", rbody):
+        name = mm.group(2).lower()
+        if name not in number:
+            return None
+        rt.append((number[name], bool(mm.group(1))))
+    lt = []
+    for mm in re.finditer(r"key_type\s*==\s*keys_proto::KeyType::(\w+)", local):
+        name = mm.group(1).lower()
+        if name not in number:
+            return None
+        lt.append((number[name], False))
+    for mm in re.finditer(r"keys_proto::KeyType::(\w+)\s*=>", local):
+        name = mm.group(1).lower()
+        if name not in number:
+            return None
+        lt.append((number[name], False))
+    if not rt or not lt:
+        return None
+    return [int(v) for _, v in entries], rt, lt
+
+
 def generate(repo):
     sites, names = scan(repo)
+    psites, pnames = scan(repo, PARSE_KINDS)
+    adm = key_admission(repo)
+    coqb = lambda b: "true" if b else "false"
     lines = [
         "(* GENERATED by tools/gen_c18_sites.py from the Rust source on every check. Do not edit.",
         "   Every non-test place of the crate where a PeerId is made from key material:",
         "   (file, enclosing function, kind) — see the script for the tables. *)",
-        "From Coq Require Import List NArith.",
+        "From Coq Require Import List NArith Bool.",
         "Import ListNotations.",
         "Open Scope N_scope.",
         "",
         "Definition sites : list (N * N * N) :=",
         "  [" + ";\n   ".join("(%d, %d, %d)" % s for s in sites) + "].",
         "",
+        "(* every non-test place where a PeerId is made from received bytes / text / a multiaddress *)",
+        "Definition parse_sites : list (N * N * N) :=",
+        "  [" + ";\n   ".join("(%d, %d, %d)" % s for s in psites) + "].",
+        "",
     ]
+    if adm:
+        nums, rt, lt = adm
+        lines += [
+            "(* keys.proto KeyType numbers; admitted key types of RemotePublicKey / PublicKey as",
+            "   (number, behind cfg(feature = \"rsa\")) in source order *)",
+            "Definition key_type_numbers : list N := [" + "; ".join(str(n) for n in nums) + "].",
+            "Definition remote_admission : list (N * bool) := ["
+            + "; ".join("(%d, %s)" % (n, coqb(b)) for n, b in rt) + "].",
+            "Definition local_admission : list (N * bool) := ["
+            + "; ".join("(%d, %s)" % (n, coqb(b)) for n, b in lt) + "].",
+            "",
+        ]
+    else:
+        lines += [
+            "Definition key_type_numbers : list N := [].",
+            "Definition remote_admission : list (N * bool) := [].",
+            "Definition local_admission : list (N * bool) := [].",
+            "",
+        ]
     for (rel, fn, kind), s in zip(names, sites):
         lines.append("(* %s  %s  kind %d  -> (%d, %d, %d) *)" % ((rel, fn, kind) + s))
+    for (rel, fn, kind), s in zip(pnames, psites):
+        lines.append("(* parse: %s  %s  kind %d  -> (%d, %d, %d) *)" % ((rel, fn, kind) + s))
     text = "\n".join(lines) + "\n"
     os.makedirs(os.path.dirname(OUT), exist_ok=True)
     old = open(OUT).read() if os.path.exists(OUT) else None
     if old != text:
         open(OUT, "w").write(text)
+    # the same KeyType numbers for the harness's exhaustive sweep (harness/src/c18_gen.rs, include!d)
+    rs = os.path.join(HERE, "..", "harness", "src", "c18_gen.rs")
+    nums = adm[0] if adm else []
+    rtext = ("// GENERATED by tools/gen_c18_sites.py from src/schema/keys.proto on every check. Do not edit.\n"
+             "pub const KEY_TYPE_NUMBERS: &[u64] = &[" + ", ".join(str(n) for n in nums) + "];\n")
+    if not os.path.exists(rs) or open(rs).read() != rtext:
+        open(rs, "w").write(rtext)
     missing = []
     if not sites:
         missing.append(("PEER_ID_SITES", "src", "no derivation site found"))
-    return {"PEER_ID_SITES": len(sites)}, missing
+    if not psites:
+        missing.append(("PEER_ID_PARSE_SITES", "src", "no parse site found"))
+    if not adm:
+        missing.append(("PEER_ID_ADMITTED_KEY_TYPES", "src/crypto/mod.rs", "key admission arms not found"))
+    return {"PEER_ID_SITES": len(sites), "PEER_ID_PARSE_SITES": len(psites),
+            "PEER_ID_ADMITTED_KEY_TYPES": len(adm[1]) if adm else 0}, missing
 
 
 if __name__ == "__main__":
